@@ -80,14 +80,14 @@ def run(tier, seed, replay=None):
                                       "frags": fr, "pause_us": rnd.choice([50, 300]), "offset": rnd.choice([0, 1, 1000, 2 ** 40]),
                                       "read_max": rnd.choice([1, 17, 4096, 65536])})
         # the source hangs up some way into the command stream: the tool must come back with the announced run id for the next byte
-        for j in range(24 if thorough else 5):
+        for j in range(48 if thorough else 5):
             cid += 1
             slen = rnd.choice([300, 9000])
             cases.append({"id": cid, "mode": "psync", "n": rnd.choice([1, 100, 8192, 20000]), "stream_len": slen, "pre_newlines": rnd.choice([0, 1]), "mid_newlines": rnd.choice([0, 2]),
                           "status_case": rnd.choice([0, 1, 2]), "frags": rnd.choice([[], [7], [4096]]), "pause_us": 50, "offset": rnd.choice([0, 1000, 2 ** 40]),
                           "read_max": 4096, "drop_at": rnd.choice([1, slen // 2, slen - 1])})
         # the whole dump command (CmdDump.Main) over two sources and 1-2 file workers
-        for j in range(16 if thorough else 4):
+        for j in range(32 if thorough else 4):
             cid += 1
             cases.append({"id": cid, "mode": "dump-main", "n": rnd.choice([100, 8191, 8193, 20000, 70000]), "stream_len": rnd.choice([0, 300]), "pre_newlines": rnd.choice([0, 2]),
                           "mid_newlines": rnd.choice([0, 1]), "status_case": 0, "frags": rnd.choice([[], [1, 1, 1048576], [4096], [8191, 1]]), "pause_us": 50, "offset": 0, "read_max": 4096})
